@@ -17,7 +17,7 @@ META = {
     ),
     "anchors": ["linalg.svd_truncated", "linalg.calc_sub_max_bonds", "block_core.BlockVector.to_dense"],
     "floors": {
-        "quick": {"evaluations": 6000, "distinct_nontrivial": 1500, "tables": {"mode": 5000, "outcome/some-kept-some-discarded": 1200, "outcome/whole-charge-removed": 300, "outcome/everything-discarded": 100, "ladder": 400, "absorb": 1500, "nocutoff": 500}},
+        "quick": {"evaluations": 6000, "distinct_nontrivial": 1500, "tables": {"mode": 5000, "outcome/some-kept-some-discarded": 1200, "outcome/whole-charge-removed": 300, "outcome/everything-discarded": 100, "ladder": 400, "absorb": 1500, "nocutoff": 500, "feature/four-or-more-charges": 300}},
         "thorough": {"evaluations": 200000, "distinct_nontrivial": 40000, "tables": {"outcome/everything-discarded": 3000}},
     },
     "wall": {"quick": 100, "thorough": 1500},
@@ -221,7 +221,10 @@ def absorb_variants(ctx, x, cutoff, mode, max_bond, rec, wit):
 
 
 def case(ctx, rng):
-    x, feats = lingen.rand_matrix(ctx, rng, kind=rng.choice(["direct", "direct", "fused", "deficient"]), min_charges=2)
+    many = rng.random() < 0.35
+    x, feats = lingen.rand_matrix(ctx, rng, kind=rng.choice(["direct", "direct", "fused", "deficient"]) if not many else "direct", min_charges=2 if not many else 4, max_charges=3 if not many else 6, sym=rng.choice(["U1", "U1U1", "Z4", "Z2Z2"]) if many else None, sparsity=0.0 if many else None)
+    if many:
+        ctx.count("feature", "four-or-more-charges")
     if x is None or not x.blocks:
         return
     spec = spectrum(x)
